@@ -166,6 +166,20 @@ class MonoLocation(Mono):
                 if rb:
                     v["rb"] = 1000
                 yield v
+        if ra and rb:
+            # tracks that leave the strict box and come back, with hop limits smaller than the excursion: the fix
+            # after the excursion is judged against its real predecessor under either box
+            pts2 = [(0, 0), (10, 20.5), (5, 5), (9, 19), (-1, 5)]
+            for n in (3, 4):
+                for ps in itertools.product(pts2, repeat=n):
+                    if not any(p[1] > 20 or p[0] < 0 for p in ps):
+                        continue
+                    for va, vb in ((1000000, 1000000), (2000000, 500000)):
+                        v = {"n": n, "lon": [p[0] for p in ps], "lat": [p[1] for p in ps], "ra": va, "rb": vb, "keep": 1 if n == 3 else 0}
+                        v.update(baminx=-180, baminy=-90, bamaxx=180, bamaxy=90, bbminx=0, bbminy=0, bbmaxx=10, bbmaxy=20)
+                        if not v["keep"]:
+                            del v["keep"]
+                        yield v
 
 
 class MonoSpike(Mono):
